@@ -290,12 +290,11 @@ func c22Run(raw json.RawMessage) (Case, error) {
 		} else {
 			tags = append(tags, "path:event-header")
 		}
-		items = append(items, fmt.Sprintf("{| i_fmt := %s; i_batch := %s; i_t := (%s, %s); i_text := %s; i_mts := %s; i_obs := %s |}",
-			f, cq.Bool(it.Batch), cq.Z(it.Sec), cq.Z(it.Nsec), cq.Str(texts[i]), mtsS, obs))
+		items = append(items, cq.App("Build_item", f, cq.Bool(it.Batch), cq.Pair(cq.Z(it.Sec), cq.Z(it.Nsec)), cq.Str(texts[i]), mtsS, obs))
 		human = append(human, fmt.Sprintf("%s %q (%d,%d) -> %s", it.Kind, texts[i], it.Sec, it.Nsec, obsH))
 	}
 	key, _ := json.Marshal(in)
-	return Case{Coq: "{| c_items := " + cq.List(items) + " |}", Key: string(key), Nontriv: nontriv, Tags: tags,
+	return Case{Coq: cq.App("Build_case", cq.List(items)), Key: string(key), Nontriv: nontriv, Tags: tags,
 		Summary: map[string]any{"items": human, "responses": statuses}}, nil
 }
 
